@@ -631,6 +631,6 @@ Proof.
   intros ik e Hik He. cbn [index_of ix_keys ix_mintime ix_maxtime] in *.
   rewrite Forall_forall in Hents. destruct (Hents ik Hik) as [_ Hb]. specialize (Hb e He).
   destruct (fold_min_spec first_min all MaxInt64) as [_ [A _]].
-  destruct (fold_max_spec last_max all 0%Z) as [_ [B _]]. cbv zeta in *.
+  destruct (fold_max_spec last_max all MinInt64) as [_ [B _]]. cbv zeta in *.
   specialize (A ik Hik). specialize (B ik Hik). lia.
 Qed.
